@@ -3,7 +3,7 @@
   what `issue_durable` / restarts of C12 abstract as "the record keeps exNum / inNum and the pub bucket".
   Statements only; proofs in MW/Lemmas/KsCodec*.lean.
 -/
-import MW.Lemmas.KsCodecJson
+import MW.Lemmas.KsCodecSpec
 namespace MW.Props.C12Codec
 open MW MW.Model.KsCodec MW.KsCodecL
 
@@ -61,6 +61,12 @@ theorem issued_keys_listed (b : Bucket) (hb : PkBucket b) (br ix : Nat) (pk : By
     ∃ l, fetchEncryptedPubKey b = .ok l ∧ (br, ix, pk) ∈ l := fetchEncryptedPubKey_lists b hb br ix pk hbr hix h
 theorem pk_bucket_invariant {b b' : Bucket} (hb : PkBucket b) {br ix : Nat} {pk : Bytes}
     (h : putEncryptedPubKey b br ix pk = .ok b') : PkBucket b' := pkBucket_put hb h
+
+/-- for today's tables the counter and index-key codecs ARE the format spec (4-byte little endian), on every input -/
+theorem counters_model_eq_spec (n b i : Nat) (bs : Bytes) :
+    u32Bytes n = Spec.KsCodec.u32 n ∧ Spec.KsCodec.ofExcept (u32Of bs) = Spec.KsCodec.readU32 bs ∧
+    pubKeyKey b i = Spec.KsCodec.indexKey b i :=
+  ⟨u32Bytes_eq_spec n, u32Of_eq_spec bs, pubKeyKey_eq_spec b i⟩
 
 /-! non-vacuity -/
 example : (do let b ← initBranchChildNum []; let b ← updateChildNum b false 7; getChildNum b false) = .ok 7 := by decide
